@@ -38,9 +38,9 @@ def spec(tier, seed):
     # measured: one hunk N=3 symbolic stated line 230 s / 5 GB; two hunks N=3 stated lines from the matrix 540 s / 11 GB
     if tier == "quick":
         ch1 = rotate(one, seed, 4)
-        ch2 = rotate(two, seed, 2)
+        ch2 = rotate([t for t in two if t[3] == 0], seed, 2)   # fuzz-1 two-hunk rollback exceeds 15 GB
     else:
-        ch1, ch2 = one, two
+        ch1, ch2 = one, rotate([t for t in two if t[3] == 0], seed, 24)
     for (n, sh, ls, f, d) in ch1:
         inst.append(apply_inst("c04a", n, sh, ls, f, d, ["rollback"], "C04a modify: apply + rollback, one hunk, symbolic stated line", mem_gb=9, timeout=1800))
     for (n, sh, ls, f, d) in ch2:
